@@ -106,24 +106,29 @@ Section Methods.
     let v := inv m c2 - inv m c1 in
     let r := quadratic K m (Some c0) c1 (Some c2) in
     ((u < 0 \/ v < 0) /\ r = MOk 0 c1 (k_stopped K))
-    \/ (u == 0 /\ v == 0 /\ r = MRaise)
-    \/ (0 <= u /\ 0 <= v /\ 0 < u + v /\
+    \/ (0 <= u /\ 0 <= v /\ u + v < 2 * eps15 /\ r = MOk 0 c1 0)
+    \/ (0 <= u /\ 0 <= v /\ 2 * eps15 <= u + v /\
         exists sh co, r = MOk sh co 0 /\ sh == (u - v) / (2 * (u + v))
                       /\ inv m co == inv m c1 - (u - v) * (u - v) / (8 * (u + v))).
   Proof.
-    intros u v r. subst r. unfold quadratic.
+    intros u v r. subst r. unfold quadratic. cbv zeta. pose proof eps15_pos as He.
     destruct (Qltb (inv m c0) (inv m c1) || Qltb (inv m c2) (inv m c1)) eqn:E0.
     { left. split; [|reflexivity]. subst u v. apply orb_true_iff in E0.
       destruct E0 as [E|E]; apply Qltb_true in E; lra. }
     apply orb_false_iff in E0. destruct E0 as [Eu Ev]. apply Qltb_false in Eu, Ev.
     assert (Hu : 0 <= u) by (subst u; lra). assert (Hv : 0 <= v) by (subst v; lra).
     right.
-    destruct (Qeq_bool (2 * ((c0 - 2 * c1 + c2) * (1 # 2))) 0) eqn:E1.
-    { left. apply Qeq_bool_iff in E1. subst u v. destruct m; unfold inv in *; repeat split; lra. }
-    right. apply Qeq_bool_neq in E1.
-    assert (Huv : 0 < u + v).
-    { destruct (Qlt_le_dec 0 (u + v)) as [L|L]; [exact L|]. exfalso. apply E1.
-      subst u v. destruct m; unfold inv in *; lra. }
+    assert (HA : Qabs ((c0 - 2 * c1 + c2) * (1 # 2)) == (u + v) * (1 # 2)).
+    { subst u v. destruct m; unfold inv in *.
+      - rewrite Qabs_pos by lra. lra.
+      - rewrite Qabs_neg by lra. lra. }
+    destruct (Qltb (Qabs ((c0 - 2 * c1 + c2) * (1 # 2))) eps15) eqn:E1.
+    { left. apply Qltb_true in E1. repeat split; try assumption. lra. }
+    apply Qltb_false in E1. right.
+    assert (Huv : 2 * eps15 <= u + v) by lra.
+    destruct (Qeq_bool (2 * ((c0 - 2 * c1 + c2) * (1 # 2))) 0) eqn:E2.
+    { exfalso. apply Qeq_bool_iff in E2. subst u v. destruct m; unfold inv in *; lra. }
+    apply Qeq_bool_neq in E2.
     repeat split; try assumption.
     set (x := - ((c2 - c0) * (1 # 2)) / (2 * ((c0 - 2 * c1 + c2) * (1 # 2)))).
     assert (X : x == (u - v) / (2 * (u + v))).
@@ -164,7 +169,8 @@ Section Methods.
   Proof.
     destruct oc0 as [c0|], oc2 as [c2|]; try (cbn; intro H; inversion H; apply Qabs_0_half).
     intro H.
-    destruct (quad_char m c0 c1 c2) as [[_ R]|[(_ & _ & R)|(A & B & C & sh' & co' & R & S & _)]];
+    pose proof eps15_pos.
+    destruct (quad_char m c0 c1 c2) as [[_ R]|[(_ & _ & _ & R)|(A & B & C & sh' & co' & R & S & _)]];
       cbv zeta in *; rewrite R in H; inversion H; subst; try apply Qabs_0_half.
     rewrite S. apply half_bound; lra.
   Qed.
@@ -192,7 +198,8 @@ Section Methods.
   Proof.
     intro H. apply not_worse_inv.
     destruct oc0 as [c0|], oc2 as [c2|]; try (cbn in H; inversion H; lra).
-    destruct (quad_char m c0 c1 c2) as [[_ R]|[(_ & _ & R)|(A & B & C & sh' & co' & R & _ & S)]];
+    pose proof eps15_pos.
+    destruct (quad_char m c0 c1 c2) as [[_ R]|[(_ & _ & _ & R)|(A & B & C & sh' & co' & R & _ & S)]];
       cbv zeta in *; rewrite R in H; inversion H; subst; try lra.
     rewrite S.
     pose proof (sq_div_nonneg (inv m c0 - inv m c1 - (inv m c2 - inv m c1)) (8 * (inv m c0 - inv m c1 + (inv m c2 - inv m c1)))).
@@ -482,21 +489,652 @@ Proof.
       * rewrite (Qabs_pos (c0 - c2)) by lra. lra.
 Qed.
 
-(* quadratic: the closed forms of the user guide, whenever the triple is not flat *)
-Lemma quad_closed_form m c0 c1 c2 :
-  is_extremum (kind_of m) c0 c1 c2 -> ~ quad_a c0 c1 c2 == 0 ->
-  exists sh co, quadratic K m (Some c0) c1 (Some c2) = MOk sh co 0
-                /\ sh == quad_x c0 c1 c2 /\ co == quad_y c0 c1 c2.
+(* quadratic: the closed forms of the user guide, outside the 1e-15 guard band of the curvature;
+   inside the band (a flat triple, alpha = 0, is its centre) the pixel stays in place, without flag *)
+Lemma quad_a_abs m c0 c1 c2 :
+  0 <= inv m c0 - inv m c1 -> 0 <= inv m c2 - inv m c1 ->
+  Qabs (quad_a c0 c1 c2) == (inv m c0 - inv m c1 + (inv m c2 - inv m c1)) * (1 # 2).
 Proof.
-  intros E N. apply extremum_uv in E. destruct E as [Eu Ev].
-  destruct (quad_char K m c0 c1 c2) as [[A R]|[(A & B & R)|(A & B & C & sh & co & R & S & D)]]; cbv zeta in *.
+  intros Eu Ev. unfold quad_a. destruct m; unfold inv in *.
+  - rewrite Qabs_pos by lra. lra.
+  - rewrite Qabs_neg by lra. lra.
+Qed.
+
+Lemma quad_closed_form m c0 c1 c2 :
+  is_extremum (kind_of m) c0 c1 c2 ->
+  (eps15 <= Qabs (quad_a c0 c1 c2) ->
+     exists sh co, quadratic K m (Some c0) c1 (Some c2) = MOk sh co 0
+                   /\ sh == quad_x c0 c1 c2 /\ co == quad_y c0 c1 c2)
+  /\ (Qabs (quad_a c0 c1 c2) < eps15 -> quadratic K m (Some c0) c1 (Some c2) = MOk 0 c1 0).
+Proof.
+  intros E. apply extremum_uv in E. destruct E as [Eu Ev]. pose proof eps15_pos as He.
+  pose proof (quad_a_abs m c0 c1 c2 Eu Ev) as HA.
+  destruct (quad_char K m c0 c1 c2) as [[A R]|[(A & B & C & R)|(A & B & C & sh & co & R & S & D)]]; cbv zeta in *.
   - exfalso. lra.
-  - exfalso. apply N. unfold quad_a. destruct m; unfold inv in *; lra.
-  - exists sh, co. split; [exact R|]. split.
+  - split; [intro; exfalso; lra | intro; exact R].
+  - split; [intros _ | intro; exfalso; lra].
+    assert (N : ~ quad_a c0 c1 c2 == 0).
+    { intro Z. rewrite Z in HA. cbn in HA. lra. }
+    exists sh, co. split; [exact R|]. split.
     + rewrite S. unfold quad_x, quad_b, quad_a. destruct m; unfold inv in *; field; lra.
     + unfold quad_y, quad_b, quad_a. destruct m; unfold inv in *.
       * rewrite D. field. lra.
       * assert (D' : co == c1 + (- c0 - - c1 - (- c2 - - c1)) * (- c0 - - c1 - (- c2 - - c1)) / (8 * (- c0 - - c1 + (- c2 - - c1)))) by lra.
         rewrite D'. field. lra.
 Qed.
+
+(* neither method can raise, whatever the triple (flat, tied, NaN-holed) and the measure *)
+Lemma vfit_total m oc0 c1 oc2 : vfit K m oc0 c1 oc2 <> MRaise.
+Proof.
+  destruct oc0 as [c0|], oc2 as [c2|]; try (cbn; discriminate).
+  destruct (vfit_char K m c0 c1 c2) as [[_ R]|[(_ & _ & R)|[(_ & _ & sh & co & R & _)|(_ & _ & sh & co & R & _)]]];
+    cbv zeta in *; rewrite R; discriminate.
+Qed.
+
+Lemma quad_total m oc0 c1 oc2 : quadratic K m oc0 c1 oc2 <> MRaise.
+Proof.
+  destruct oc0 as [c0|], oc2 as [c2|]; try (cbn; discriminate).
+  destruct (quad_char K m c0 c1 c2) as [[_ R]|[(_ & _ & _ & R)|(_ & _ & _ & sh & co & R & _)]];
+    cbv zeta in *; rewrite R; discriminate.
+Qed.
+
+Lemma run_method_total me m oc0 c1 oc2 : run_method K me m oc0 c1 oc2 <> MRaise.
+Proof. destruct me; [apply vfit_total | apply quad_total]. Qed.
+
+(* the flag a method returns is 0 or "stopped"; with "stopped" the pixel stays where it is and keeps
+   its cost; "stopped" is returned exactly when a neighbour is NaN or the centre is not an extremum *)
+Lemma run_method_stop me m oc0 c1 oc2 :
+  (oc0 = None \/ oc2 = None
+   \/ exists c0 c2, oc0 = Some c0 /\ oc2 = Some c2 /\ ~ is_extremum (kind_of m) c0 c1 c2) ->
+  run_method K me m oc0 c1 oc2 = MOk 0 c1 (k_stopped K).
+Proof.
+  intros [H|[H|(c0 & c2 & H0 & H2 & H)]]; subst.
+  - destruct me, oc2; reflexivity.
+  - destruct me, oc0; reflexivity.
+  - assert (U : inv m c0 - inv m c1 < 0 \/ inv m c2 - inv m c1 < 0).
+    { destruct (Qlt_le_dec (inv m c0 - inv m c1) 0) as [L|L]; [left; exact L|].
+      destruct (Qlt_le_dec (inv m c2 - inv m c1) 0) as [L'|L']; [right; exact L'|].
+      exfalso. apply H. apply extremum_uv. split; assumption. }
+    pose proof eps15_pos.
+    destruct me; cbn [run_method].
+    + destruct (vfit_char K m c0 c1 c2) as [[_ R]|[(A & B & R)|[(A & B & _)|(A & B & _)]]];
+        cbv zeta in *; try exact R; exfalso; lra.
+    + destruct (quad_char K m c0 c1 c2) as [[_ R]|[(A & B & _)|(A & B & _)]];
+        cbv zeta in *; try exact R; exfalso; lra.
+Qed.
+
+Lemma run_method_go me m c0 c1 c2 :
+  is_extremum (kind_of m) c0 c1 c2 ->
+  exists sh co, run_method K me m (Some c0) c1 (Some c2) = MOk sh co 0.
+Proof.
+  intro E. apply extremum_uv in E. destruct E as [Eu Ev].
+  destruct me; cbn [run_method].
+  - destruct (vfit_char K m c0 c1 c2) as [[A R]|[(A & B & R)|[(A & B & sh & co & R & _)|(A & B & sh & co & R & _)]]];
+      cbv zeta in *; try (exfalso; lra); eauto.
+  - destruct (quad_char K m c0 c1 c2) as [[A R]|[(A & B & C & R)|(A & B & C & sh & co & R & _)]];
+      cbv zeta in *; try (exfalso; lra); eauto.
+Qed.
+
+Lemma run_method_flag me m oc0 c1 oc2 sh co fl :
+  run_method K me m oc0 c1 oc2 = MOk sh co fl -> fl = 0%Z \/ (fl = k_stopped K /\ sh = 0 /\ co = c1).
+Proof.
+  intro H.
+  destruct oc0 as [c0|]; [|rewrite (run_method_stop me m None c1 oc2) in H by (left; reflexivity);
+                            inversion H; right; repeat split].
+  destruct oc2 as [c2|]; [|rewrite (run_method_stop me m (Some c0) c1 None) in H by (right; left; reflexivity);
+                            inversion H; right; repeat split].
+  destruct (Qlt_le_dec (inv m c0 - inv m c1) 0) as [L|L];
+    [|destruct (Qlt_le_dec (inv m c2 - inv m c1) 0) as [L'|L']].
+  - rewrite (run_method_stop me m (Some c0) c1 (Some c2)) in H.
+    + inversion H; right; repeat split.
+    + right; right. exists c0, c2. repeat split. intro E. apply extremum_uv in E. lra.
+  - rewrite (run_method_stop me m (Some c0) c1 (Some c2)) in H.
+    + inversion H; right; repeat split.
+    + right; right. exists c0, c2. repeat split. intro E. apply extremum_uv in E. lra.
+  - destruct (run_method_go me m c0 c1 c2) as (sh' & co' & R).
+    + apply extremum_uv. split; assumption.
+    + rewrite R in H. inversion H. left; reflexivity.
+Qed.
+
+Lemma run_method_shift_half me m oc0 c1 oc2 sh co fl :
+  run_method K me m oc0 c1 oc2 = MOk sh co fl -> Qabs sh <= 1 # 2.
+Proof. destruct me; [apply vfit_shift_half | apply quad_shift_half]. Qed.
+
+Lemma run_method_not_worse me m oc0 c1 oc2 sh co fl :
+  run_method K me m oc0 c1 oc2 = MOk sh co fl -> not_worse (kind_of m) co c1.
+Proof. destruct me; [apply vfit_cost_not_worse | apply quad_cost_not_worse]. Qed.
 End Methods2.
+
+(* ================================================================ one pixel of loop_refinement *)
+
+Lemma inject_Z_pos s : (0 < s)%Z -> 0 < inject_Z s.
+Proof. intro H. unfold Qlt, inject_Z. cbn. lia. Qed.
+
+(* int(x) of the code is the floor for the non-negative numbers it is applied to *)
+Lemma trunc_floor q : 0 <= q -> trunc q = Qfloor q.
+Proof.
+  destruct q as [n d]. unfold Qle, trunc, Qfloor. cbn. intro H.
+  apply Z.quot_div_nonneg; lia.
+Qed.
+
+Lemma Qfloor_ge z q : inject_Z z <= q -> (z <= Qfloor q)%Z.
+Proof. intro H. apply Qfloor_resp_le in H. rewrite Qfloor_Z in H. exact H. Qed.
+Lemma Qfloor_le_Z z q : q <= inject_Z z -> (Qfloor q <= z)%Z.
+Proof. intro H. apply Qfloor_resp_le in H. rewrite Qfloor_Z in H. exact H. Qed.
+
+Lemma inject_Z_sub1 n : inject_Z (n - 1) == inject_Z n - 1.
+Proof. unfold Z.sub. rewrite inject_Z_plus. reflexivity. Qed.
+Lemma inject_Z_sub2 n : inject_Z (n - 2) == inject_Z n - 2.
+Proof. unfold Z.sub. rewrite inject_Z_plus. reflexivity. Qed.
+
+(* a read inside the disparity axis is the cost of that sample (Spec.cost_at) *)
+Lemma read_in cv i : (0 <= i < Z.of_nat (length cv))%Z -> read cv i = RVal (cost_at cv i).
+Proof.
+  intro H. unfold read, cost_at.
+  assert (E : (0 <=? i)%Z && (i <? Z.of_nat (length cv))%Z = true).
+  { apply andb_true_iff. split; [apply Z.leb_le | apply Z.ltb_lt]; lia. }
+  rewrite E. reflexivity.
+Qed.
+
+Lemma lor_0_r m : Z.lor m 0 = m.
+Proof. apply Z.lor_0_r. Qed.
+
+(* setting bit 3 with a bitwise or leaves every other bit as it was *)
+Lemma other_bits_lor8 m : other_bits (Z.lor m bit3) = other_bits m.
+Proof.
+  unfold other_bits. rewrite Z.land_lor_distr_l. rewrite Z.land_lnot_diag. apply Z.lor_0_r.
+Qed.
+
+Lemma testbit3_lor8 m : Z.testbit (Z.lor m bit3) 3 = true.
+Proof. rewrite Z.lor_spec. unfold bit3. cbn. apply orb_true_r. Qed.
+
+Section Pixel.
+  Variable K : consts.
+  Hypothesis KW : consts_wf K = true.
+  Variables (me : method) (m : measure) (dmin dmax : Q) (s : Z).
+  Hypothesis Hs : (0 < s)%Z.
+
+  Lemma k_stopped_8 : k_stopped K = bit3.
+  Proof.
+    unfold consts_wf in KW. apply andb_true_iff in KW. destruct KW as [A _].
+    apply andb_true_iff in A. destruct A as [A _]. apply Z.eqb_eq in A. exact A.
+  Qed.
+  Lemma k_invalid_no8 : Z.land bit3 (k_invalid K) = 0%Z.
+  Proof.
+    unfold consts_wf in KW. apply andb_true_iff in KW. destruct KW as [A _].
+    apply andb_true_iff in A. destruct A as [_ A]. apply Z.eqb_eq in A. rewrite Z.land_comm. exact A.
+  Qed.
+
+  (* the pixel is valid: none of the "invalid" bits is set *)
+  Definition is_valid (mask : Z) : Prop := Z.land mask (k_invalid K) = 0%Z.
+
+  (* bit 3 is not an invalid bit: raising it never changes validity *)
+  Lemma valid_lor8 mask : Z.land (Z.lor mask bit3) (k_invalid K) = Z.land mask (k_invalid K).
+  Proof. rewrite Z.land_lor_distr_l, k_invalid_no8. apply Z.lor_0_r. Qed.
+
+  (* the cost row has one cost per sample of [dmin, dmax] (step 1/s) *)
+  Definition cv_fits (cv : list (option Q)) : Prop :=
+    inject_Z (Z.of_nat (length cv)) == (dmax - dmin) * inject_Z s + 1.
+
+  Definition in_interval (d : Q) : Prop := dmin <= d <= dmax.
+
+  Lemma room_iff d : room dmin dmax s d = true <-> ~ near_end dmin dmax s d.
+  Proof.
+    unfold room, near_end. rewrite andb_true_iff, !Qle_bool_iff. split.
+    - intros [A B] [C|C]; lra.
+    - intro N. split.
+      + destruct (Qlt_le_dec ((d - dmin) * inject_Z s) 1); [exfalso; apply N; left; assumption | assumption].
+      + destruct (Qlt_le_dec ((dmax - d) * inject_Z s) 1); [exfalso; apply N; right; assumption | assumption].
+  Qed.
+
+  (* the index computed by the code is the Spec's sample, and it is inside the cost row *)
+  Lemma index_in cv d : cv_fits cv -> in_interval d ->
+    trunc ((d - dmin) * inject_Z s) = sample_index dmin s d
+    /\ (0 <= sample_index dmin s d < Z.of_nat (length cv))%Z.
+  Proof.
+    intros F [A B]. pose proof (inject_Z_pos s Hs) as Ps. unfold sample_index, cv_fits in *.
+    assert (X0 : 0 <= (d - dmin) * inject_Z s) by (apply Qmult_le_0_compat; lra).
+    assert (X1 : 0 <= (dmax - d) * inject_Z s) by (apply Qmult_le_0_compat; lra).
+    assert (Sp : (dmax - dmin) * inject_Z s == (d - dmin) * inject_Z s + (dmax - d) * inject_Z s) by ring.
+    split; [apply trunc_floor; exact X0|]. split.
+    - apply (Qfloor_ge 0). exact X0.
+    - assert ((Qfloor ((d - dmin) * inject_Z s) <= Z.of_nat (length cv) - 1)%Z); [|lia].
+      apply Qfloor_le_Z. rewrite inject_Z_sub1. lra.
+  Qed.
+
+  (* with a whole sample on each side, the two neighbours are inside the cost row as well *)
+  Lemma index_room cv d : cv_fits cv -> ~ near_end dmin dmax s d ->
+    (1 <= sample_index dmin s d <= Z.of_nat (length cv) - 2)%Z.
+  Proof.
+    intros F N. unfold sample_index, cv_fits, near_end in *.
+    assert (Sp : (dmax - dmin) * inject_Z s == (d - dmin) * inject_Z s + (dmax - d) * inject_Z s) by ring.
+    split.
+    - apply (Qfloor_ge 1).
+      destruct (Qlt_le_dec ((d - dmin) * inject_Z s) 1); [exfalso; apply N; left; assumption | assumption].
+    - apply Qfloor_le_Z. rewrite inject_Z_sub2.
+      destruct (Qlt_le_dec ((dmax - d) * inject_Z s) 1); [exfalso; apply N; right; assumption | lra].
+  Qed.
+
+  (* a disparity with room on both sides is inside the interval *)
+  Lemma room_in_interval d : ~ near_end dmin dmax s d -> in_interval d.
+  Proof.
+    intro N. pose proof (inject_Z_pos s Hs) as Ps. unfold near_end, in_interval in *.
+    split.
+    - destruct (Qlt_le_dec d dmin) as [L|L]; [|exact L]. exfalso. apply N. left.
+      assert (0 <= (dmin - d) * inject_Z s) by (apply Qmult_le_0_compat; lra).
+      assert ((d - dmin) * inject_Z s == - ((dmin - d) * inject_Z s)) by ring. lra.
+    - destruct (Qlt_le_dec dmax d) as [L|L]; [|exact L]. exfalso. apply N. right.
+      assert (0 <= (d - dmax) * inject_Z s) by (apply Qmult_le_0_compat; lra).
+      assert ((dmax - d) * inject_Z s == - ((d - dmax) * inject_Z s)) by ring. lra.
+  Qed.
+
+  (* ---------------------------------------------------------------- what the step does to a pixel *)
+
+  Lemma pixel_invalid cv disp mask : ~ is_valid mask ->
+    loop_pixel K me m dmin dmax s cv disp mask = POk disp None mask.
+  Proof.
+    intro V. unfold loop_pixel, is_valid in *.
+    destruct (Z.land mask (k_invalid K) =? 0)%Z eqn:E; [apply Z.eqb_eq in E; contradiction | reflexivity].
+  Qed.
+
+  (* normal form of the step on a valid pixel whose disparity is in the interval *)
+  Lemma pixel_char cv d mask : is_valid mask -> cv_fits cv -> in_interval d ->
+    let k := sample_index dmin s d in
+    let r := loop_pixel K me m dmin dmax s cv (Some d) mask in
+    match cost_at cv k with
+    | None => r = POk (Some d) None mask
+    | Some c1 =>
+      (near_end dmin dmax s d /\ r = POk (Some d) (Some c1) (Z.lor mask bit3))
+      \/ (~ near_end dmin dmax s d /\ (1 <= k <= Z.of_nat (length cv) - 2)%Z /\
+          exists sh co fl, run_method K me m (cost_at cv (k - 1)) c1 (cost_at cv (k + 1)) = MOk sh co fl
+             /\ r = POk (Some (Qred (d + sh / inject_Z s))) (Some (Qred co)) (Z.lor mask fl))
+    end.
+  Proof.
+    intros V F I k r. subst r. unfold loop_pixel, is_valid in *.
+    rewrite V. cbn [Z.eqb negb].
+    destruct (index_in cv d F I) as [T R]. fold k in T, R. rewrite T.
+    rewrite (read_in cv k R).
+    destruct (cost_at cv k) as [c1|]; [|reflexivity].
+    destruct (room dmin dmax s d) eqn:E.
+    - right. apply room_iff in E. split; [exact E|].
+      pose proof (index_room cv d F E) as R2. fold k in R2. split; [exact R2|].
+      rewrite (read_in cv (k - 1)) by lia. rewrite (read_in cv (k + 1)) by lia.
+      destruct (run_method K me m (cost_at cv (k - 1)) c1 (cost_at cv (k + 1))) as [sh co fl|] eqn:M.
+      + exists sh, co, fl. split; reflexivity.
+      + exfalso. exact (run_method_total K me m _ _ _ M).
+    - left. split; [|rewrite k_stopped_8; reflexivity].
+      unfold near_end.
+      destruct (Qlt_le_dec ((d - dmin) * inject_Z s) 1) as [L|L]; [left; exact L|].
+      destruct (Qlt_le_dec ((dmax - d) * inject_Z s) 1) as [L'|L']; [right; exact L'|].
+      exfalso. assert (room dmin dmax s d = true); [|congruence].
+      unfold room. apply andb_true_iff. split; apply Qle_bool_iff; assumption.
+  Qed.
+
+  (* ---------------------------------------------------------------- consequences for one pixel *)
+
+  Lemma factor_nonneg a : 0 <= a * inject_Z s -> 0 <= a.
+  Proof.
+    intro H. pose proof (inject_Z_pos s Hs) as Ps.
+    assert (E : a == a * inject_Z s / inject_Z s) by (field; lra).
+    rewrite E. apply Qle_shift_div_l; [exact Ps|]. lra.
+  Qed.
+
+  Lemma shift_times_s sh : sh / inject_Z s * inject_Z s == sh.
+  Proof. pose proof (inject_Z_pos s Hs). field. lra. Qed.
+
+  Lemma is_valid_dec mask : {is_valid mask} + {~ is_valid mask}.
+  Proof. unfold is_valid. apply Z.eq_dec. Qed.
+
+  (* everything the property says about one valid pixel, except the bit-3 equivalence *)
+  Lemma pixel_props cv d mask r :
+    is_valid mask -> cv_fits cv -> in_interval d ->
+    loop_pixel K me m dmin dmax s cv (Some d) mask = r ->
+    exists d' c' mask', r = POk (Some d') c' mask'
+      /\ in_interval d'
+      /\ Qabs (d' - d) * inject_Z s <= 1 # 2
+      /\ (mask' = mask \/ mask' = Z.lor mask bit3)
+      /\ (forall c1, cost_at cv (sample_index dmin s d) = Some c1 ->
+            exists co, c' = Some co /\ not_worse (kind_of m) co c1)
+      /\ (cost_at cv (sample_index dmin s d) = None -> d' = d /\ c' = None /\ mask' = mask).
+  Proof.
+    intros V F I R. pose proof (inject_Z_pos s Hs) as Ps.
+    pose proof (pixel_char cv d mask V F I) as C. cbv zeta in C. rewrite R in C.
+    assert (Z0 : Qabs (d - d) * inject_Z s <= 1 # 2).
+    { assert (E : d - d == 0) by ring. rewrite E. cbn. lra. }
+    destruct (cost_at cv (sample_index dmin s d)) as [c1|] eqn:EC.
+    2:{ exists d, None, mask. repeat split; try (apply I); try assumption; try discriminate.
+        left; reflexivity. }
+    destruct C as [[N C]|(N & Rg & sh & co & fl & M & C)].
+    - exists d, (Some c1), (Z.lor mask bit3). split; [exact C|]. split; [exact I|]. split; [exact Z0|].
+      split; [right; reflexivity|]. split; [|discriminate].
+      intros c1' E. inversion E; subst. exists c1'. split; [reflexivity|].
+      destruct m; unfold not_worse, kind_of; lra.
+    - exists (Qred (d + sh / inject_Z s)), (Some (Qred co)), (Z.lor mask fl).
+      split; [exact C|].
+      pose proof (run_method_shift_half K me m _ _ _ _ _ _ M) as SH.
+      apply Qabs_Qle_condition in SH. destruct SH as [SH1 SH2].
+      pose proof (shift_times_s sh) as TS.
+      assert (N1 : 1 <= (d - dmin) * inject_Z s).
+      { destruct (Qlt_le_dec ((d - dmin) * inject_Z s) 1); [exfalso; apply N; left; assumption | assumption]. }
+      assert (N2 : 1 <= (dmax - d) * inject_Z s).
+      { destruct (Qlt_le_dec ((dmax - d) * inject_Z s) 1); [exfalso; apply N; right; assumption | assumption]. }
+      split; [|split; [|split; [|split]]].
+      + unfold in_interval. rewrite Qred_correct. split.
+        * assert (0 <= (d + sh / inject_Z s - dmin)); [|lra]. apply factor_nonneg.
+          assert (E : (d + sh / inject_Z s - dmin) * inject_Z s == (d - dmin) * inject_Z s + sh / inject_Z s * inject_Z s) by ring.
+          rewrite E, TS. lra.
+        * assert (0 <= (dmax - (d + sh / inject_Z s))); [|lra]. apply factor_nonneg.
+          assert (E : (dmax - (d + sh / inject_Z s)) * inject_Z s == (dmax - d) * inject_Z s - sh / inject_Z s * inject_Z s) by ring.
+          rewrite E, TS. lra.
+      + rewrite Qred_correct.
+        assert (E : d + sh / inject_Z s - d == sh / inject_Z s) by ring. rewrite E.
+        assert (E2 : Qabs (sh / inject_Z s) * inject_Z s == Qabs (sh / inject_Z s * inject_Z s)).
+        { rewrite Qabs_Qmult. rewrite (Qabs_pos (inject_Z s)) by lra. reflexivity. }
+        rewrite E2, TS. apply Qabs_Qle_condition. split; assumption.
+      + destruct (run_method_flag K me m _ _ _ _ _ _ M) as [Z|(Z & _)]; subst fl.
+        * left. apply Z.lor_0_r.
+        * right. rewrite k_stopped_8. reflexivity.
+      + intros c1' E. inversion E; subst. exists (Qred co). split; [reflexivity|].
+        pose proof (run_method_not_worse K me m _ _ _ _ _ _ M) as NW.
+        pose proof (Qred_correct co) as QC.
+        destruct m; unfold not_worse, kind_of in *; lra.
+      + discriminate.
+  Qed.
+
+  (* the step is total on every pixel: invalid ones whatever they carry, valid ones with a disparity
+     of the interval -- neither an exception nor a read outside the cost row *)
+  Lemma pixel_total cv disp mask :
+    cv_fits cv -> (is_valid mask -> exists d, disp = Some d /\ in_interval d) ->
+    exists d' c' mask', loop_pixel K me m dmin dmax s cv disp mask = POk d' c' mask'.
+  Proof.
+    intros F H. destruct (is_valid_dec mask) as [V|V].
+    - destruct (H V) as (d & E & I). subst disp.
+      destruct (pixel_props cv d mask _ V F I eq_refl) as (d' & c' & mask' & R & _).
+      exists (Some d'), c', mask'. exact R.
+    - exists disp, None, mask. apply pixel_invalid. exact V.
+  Qed.
+
+  (* no bit other than bit 3 ever changes, bit 3 is never cleared, validity is kept: for EVERY input
+     on which the step returns, reachable or not *)
+  Lemma pixel_bits cv disp mask d' c' mask' :
+    loop_pixel K me m dmin dmax s cv disp mask = POk d' c' mask' ->
+    (mask' = mask \/ mask' = Z.lor mask bit3).
+  Proof.
+    unfold loop_pixel. intro H.
+    destruct (negb (Z.land mask (k_invalid K) =? 0)%Z); [inversion H; left; reflexivity|].
+    destruct disp as [d|]; [|discriminate].
+    destruct (read cv (trunc ((d - dmin) * inject_Z s))) as [[c1|]|]; try discriminate;
+      [|inversion H; left; reflexivity].
+    destruct (room dmin dmax s d).
+    - destruct (read cv (trunc ((d - dmin) * inject_Z s) - 1)) as [c0|]; [|discriminate].
+      destruct (read cv (trunc ((d - dmin) * inject_Z s) + 1)) as [c2|]; [|discriminate].
+      destruct (run_method K me m c0 c1 c2) as [sh co fl|] eqn:M; [|discriminate].
+      inversion H.
+      destruct (run_method_flag K me m _ _ _ _ _ _ M) as [Z|(Z & _)]; subst fl.
+      + left. apply Z.lor_0_r.
+      + right. rewrite k_stopped_8. reflexivity.
+    - inversion H. right. rewrite k_stopped_8. reflexivity.
+  Qed.
+
+  Lemma bits_of_step mask mask' : (mask' = mask \/ mask' = Z.lor mask bit3) ->
+    other_bits mask' = other_bits mask
+    /\ (Z.testbit mask 3 = true -> Z.testbit mask' 3 = true)
+    /\ Z.land mask' (k_invalid K) = Z.land mask (k_invalid K).
+  Proof.
+    intros [E|E]; subst mask'.
+    - repeat split; auto.
+    - split; [apply other_bits_lor8|]. split; [intros _; apply testbit3_lor8 | apply valid_lor8].
+  Qed.
+
+  (* the bit-3 clause: a valid pixel is left where it was with bit 3 raised exactly when must_stop
+     (an end of the interval within one sample, a NaN neighbour, centre not an extremum); otherwise
+     its mask is unchanged and it moves by the fitted shift *)
+  Lemma is_extremum_dec k c0 c1 c2 : {is_extremum k c0 c1 c2} + {~ is_extremum k c0 c1 c2}.
+  Proof.
+    unfold is_extremum, not_worse. destruct k.
+    - destruct (Qlt_le_dec c0 c1); [right; intros [A B]; lra|].
+      destruct (Qlt_le_dec c2 c1); [right; intros [A B]; lra|]. left. split; assumption.
+    - destruct (Qlt_le_dec c1 c0); [right; intros [A B]; lra|].
+      destruct (Qlt_le_dec c1 c2); [right; intros [A B]; lra|]. left. split; assumption.
+  Qed.
+
+  Lemma pixel_bit3_iff cv d mask c1 :
+    is_valid mask -> cv_fits cv -> in_interval d ->
+    let k := sample_index dmin s d in
+    let r := loop_pixel K me m dmin dmax s cv (Some d) mask in
+    cost_at cv k = Some c1 ->
+    (must_stop (kind_of m) dmin dmax s cv d c1 ->
+       exists d' c', r = POk (Some d') (Some c') (Z.lor mask bit3) /\ d' == d /\ c' == c1)
+    /\ (~ must_stop (kind_of m) dmin dmax s cv d c1 ->
+        exists c0 c2 sh co, cost_at cv (k - 1) = Some c0 /\ cost_at cv (k + 1) = Some c2
+          /\ is_extremum (kind_of m) c0 c1 c2
+          /\ run_method K me m (Some c0) c1 (Some c2) = MOk sh co 0
+          /\ r = POk (Some (Qred (d + sh / inject_Z s))) (Some (Qred co)) mask).
+  Proof.
+    intros V F I k r EC. pose proof (pixel_char cv d mask V F I) as C. cbv zeta in C.
+    fold k in C. fold r in C. rewrite EC in C.
+    destruct C as [[N C]|(N & Rg & sh & co & fl & M & C)].
+    - split.
+      + intros _. exists d, c1. split; [exact C|]. split; reflexivity.
+      + intro NS. exfalso. apply NS. left. exact N.
+    - split.
+      + intros [MS|MS]; [contradiction|].
+        assert (ST : run_method K me m (cost_at cv (k - 1)) c1 (cost_at cv (k + 1)) = MOk 0 c1 (k_stopped K)).
+        { apply run_method_stop. destruct MS as [MS|[MS|(c0 & c2 & A & B & MS)]].
+          - left; exact MS.
+          - right; left; exact MS.
+          - right; right. exists c0, c2. repeat split; assumption. }
+        rewrite ST in M. inversion M; subst sh co fl.
+        exists (Qred (d + 0 / inject_Z s)), (Qred c1). rewrite k_stopped_8 in C.
+        split; [exact C|]. split; rewrite Qred_correct; [|reflexivity].
+        unfold Qdiv. ring.
+      + intro NS.
+        destruct (cost_at cv (k - 1)) as [c0|] eqn:E0; [|exfalso; apply NS; right; left; exact E0].
+        destruct (cost_at cv (k + 1)) as [c2|] eqn:E2; [|exfalso; apply NS; right; right; left; exact E2].
+        destruct (is_extremum_dec (kind_of m) c0 c1 c2) as [EX|EX].
+        2:{ exfalso. apply NS. right; right; right. exists c0, c2. repeat split; assumption. }
+        destruct (run_method_go K me m c0 c1 c2 EX) as (sh' & co' & G).
+        rewrite G in M. inversion M; subst sh' co' fl.
+        rewrite Z.lor_0_r in C. exists c0, c2, sh, co.
+        split; [reflexivity|]. split; [reflexivity|]. split; [exact EX|]. split; [exact G | exact C].
+  Qed.
+End Pixel.
+
+(* ================================================================ all pixels, any number of steps *)
+
+Section Steps.
+  Variable K : consts.
+  Hypothesis KW : consts_wf K = true.
+  Variables (m : measure) (dmin dmax : Q) (s : Z).
+  Hypothesis Hs : (0 < s)%Z.
+
+  (* what every legal pipeline hands to the step (C04's invariant): one cost per sample, and a valid
+     pixel carries a number of the interval -- ANY number: a sample after winner-takes-all, anything
+     after a filter, an interpolating validation or an earlier refinement *)
+  Definition pixel_ok (p : pixel) : Prop :=
+    cv_fits dmin dmax s (px_cv p)
+    /\ (is_valid K (px_mask p) -> exists d, px_disp p = Some d /\ in_interval dmin dmax d).
+
+  (* a pixel's flags before and after: bits other than bit 3 identical, bit 3 never cleared,
+     validity unchanged *)
+  Definition flags_kept (mask mask' : Z) : Prop :=
+    other_bits mask' = other_bits mask
+    /\ (Z.testbit mask 3 = true -> Z.testbit mask' 3 = true)
+    /\ Z.land mask' (k_invalid K) = Z.land mask (k_invalid K).
+
+  Lemma flags_kept_trans a b c : flags_kept a b -> flags_kept b c -> flags_kept a c.
+  Proof.
+    intros (A1 & A2 & A3) (B1 & B2 & B3). repeat split.
+    - congruence.
+    - auto.
+    - congruence.
+  Qed.
+
+  Definition out_mask (t : option Q * option Q * Z) : Z := snd t.
+
+  Lemma refine_map_ok me px : Forall pixel_ok px ->
+    exists l, refine_map K me m dmin dmax s px = IOk l
+      /\ Forall pixel_ok (reload px l)
+      /\ Forall2 (fun p t => flags_kept (px_mask p) (out_mask t)) px l.
+  Proof.
+    induction 1 as [|p r [F H] _ IH].
+    - exists []. repeat split; constructor.
+    - destruct IH as (l & E & OK & FL).
+      destruct (pixel_total K KW me m dmin dmax s Hs (px_cv p) (px_disp p) (px_mask p) F H) as (d' & c' & mask' & R).
+      exists ((d', c', mask') :: l). cbn [refine_map]. rewrite R, E.
+      pose proof (pixel_bits K KW me m dmin dmax s _ _ _ _ _ _ R) as B.
+      apply (bits_of_step K KW) in B.
+      split; [reflexivity|]. split.
+      + cbn. constructor; [|exact OK]. split; [exact F|]. cbn [px_mask px_disp].
+        intro V. unfold is_valid in V. destruct B as (_ & _ & B3). rewrite B3 in V.
+        destruct (H V) as (d & Ed & I). rewrite Ed in R.
+        destruct (pixel_props K KW me m dmin dmax s Hs _ _ _ _ V F I R) as (d'' & c'' & mask'' & R' & I' & _).
+        inversion R'. exists d''. split; [reflexivity | exact I'].
+      + constructor; [exact B | exact FL].
+  Qed.
+
+  Lemma flags_compose px : forall l1 l,
+    Forall2 (fun p t => flags_kept (px_mask p) (out_mask t)) px l1 ->
+    Forall2 (fun p t => flags_kept (px_mask p) (out_mask t)) (reload px l1) l ->
+    Forall2 (fun p t => flags_kept (px_mask p) (out_mask t)) px l /\ reload (reload px l1) l = reload px l.
+  Proof.
+    induction px as [|p r IH]; intros l1 l A B.
+    - inversion A; subst. cbn in B. inversion B; subst. split; [constructor | reflexivity].
+    - inversion A as [|? t1 ? l1' A1 A2]; subst. cbn in B. destruct t1 as [[d1 c1] k1]. cbn in B.
+      inversion B as [|? t ? l' B1 B2]; subst. destruct (IH l1' l' A2 B2) as [C D].
+      split.
+      + constructor; [|exact C]. cbn in B1. unfold out_mask in *. cbn in A1.
+        eapply flags_kept_trans; eassumption.
+      + destruct t as [[d2 c2] k2]. cbn. f_equal. exact D.
+  Qed.
+
+  (* any pipeline segment refinement, refinement.1, ... (methods mixed at will) on the same cost
+     volume: never an exception, never a read outside the cost row; whatever the number of steps no
+     bit other than bit 3 changes, bit 3 is never cleared (a second step does not turn 8 into 16),
+     and every valid pixel still carries a disparity of its interval *)
+  Lemma refine_steps_ok mes : forall px last, Forall pixel_ok px ->
+    exists l, refine_steps K mes m dmin dmax s px last = IOk l
+      /\ ((mes = [] /\ l = last)
+          \/ (Forall2 (fun p t => flags_kept (px_mask p) (out_mask t)) px l /\ Forall pixel_ok (reload px l))).
+  Proof.
+    induction mes as [|me r IH]; intros px last OK.
+    - exists last. split; [reflexivity|]. left. split; reflexivity.
+    - destruct (refine_map_ok me px OK) as (l1 & E & OK1 & FL1).
+      destruct (IH (reload px l1) l1 OK1) as (l & E2 & D).
+      exists l. cbn [refine_steps]. rewrite E. split; [exact E2|]. right.
+      destruct D as [[_ D]|[D1 D2]].
+      + subst l. split; assumption.
+      + destruct (flags_compose px l1 l FL1 D1) as [C R]. split; [exact C|]. rewrite <- R. exact D2.
+  Qed.
+End Steps.
+
+(* ================================================================ a pixel that moves has two costed neighbours *)
+
+Section PixelMoved.
+  Variable K : consts.
+  Hypothesis KW : consts_wf K = true.
+  Variables (me : method) (m : measure) (dmin dmax : Q) (s : Z).
+  Hypothesis Hs : (0 < s)%Z.
+
+  (* If the step moves a valid pixel, the costs of the two samples around the pixel's sample are
+     numbers.  With per-pixel disparity intervals (grids) the costs outside a pixel's own interval are
+     NaN (C02/C09), so for a received disparity that is a sample the refined one lies between two
+     samples of the pixel's OWN interval, at most half a sample from the received one. *)
+  Lemma pixel_moved_costed cv d mask d' c' mask' :
+    is_valid K mask -> cv_fits dmin dmax s cv -> in_interval dmin dmax d ->
+    loop_pixel K me m dmin dmax s cv (Some d) mask = POk (Some d') c' mask' ->
+    ~ d' == d ->
+    exists c0 c1 c2, cost_at cv (sample_index dmin s d - 1) = Some c0
+                     /\ cost_at cv (sample_index dmin s d) = Some c1
+                     /\ cost_at cv (sample_index dmin s d + 1) = Some c2
+                     /\ is_extremum (kind_of m) c0 c1 c2
+                     /\ ~ near_end dmin dmax s d
+                     /\ mask' = mask.
+  Proof.
+    intros V F I R NE.
+    pose proof (pixel_char K KW me m dmin dmax s Hs cv d mask V F I) as C. cbv zeta in C. rewrite R in C.
+    destruct (cost_at cv (sample_index dmin s d)) as [c1|] eqn:EC.
+    2:{ assert (E : d' = d) by congruence. subst d'. exfalso. apply NE. reflexivity. }
+    destruct C as [[N C]|(N & Rg & sh & co & fl & M & C)].
+    - assert (E : d' = d) by congruence. subst d'. exfalso. apply NE. reflexivity.
+    - assert (Ed : d' = Qred (d + sh / inject_Z s)) by congruence.
+      assert (Em : mask' = Z.lor mask fl) by congruence. clear C.
+      assert (ST : forall oc0 oc2, run_method K me m oc0 c1 oc2 = MOk sh co fl ->
+                   (oc0 = None \/ oc2 = None \/
+                    exists c0 c2, oc0 = Some c0 /\ oc2 = Some c2 /\ ~ is_extremum (kind_of m) c0 c1 c2) -> False).
+      { intros oc0 oc2 M' H. rewrite (run_method_stop K me m oc0 c1 oc2 H) in M'.
+        assert (Z0 : sh = 0) by congruence.
+        apply NE. rewrite Ed, Z0, Qred_correct. unfold Qdiv. ring. }
+      destruct (cost_at cv (sample_index dmin s d - 1)) as [c0|] eqn:E0;
+        [|exfalso; apply (ST _ _ M); left; reflexivity].
+      destruct (cost_at cv (sample_index dmin s d + 1)) as [c2|] eqn:E2;
+        [|exfalso; apply (ST _ _ M); right; left; reflexivity].
+      destruct (is_extremum_dec (kind_of m) c0 c1 c2) as [EX|EX];
+        [|exfalso; apply (ST _ _ M); right; right; exists c0, c2; repeat split; assumption].
+      exists c0, c1, c2. split; [reflexivity|]. split; [reflexivity|]. split; [reflexivity|].
+      split; [exact EX|]. split; [exact N|].
+      destruct (run_method_go K me m c0 c1 c2 EX) as (sh' & co' & G). rewrite G in M.
+      assert (Zf : fl = 0%Z) by congruence. rewrite Em, Zf.
+      apply Z.lor_0_r.
+  Qed.
+End PixelMoved.
+
+(* on the sampling grid, "less than a whole sample from an end" is "on an end" *)
+Lemma inject_Z_lt1 z : inject_Z z < 1 <-> (z < 1)%Z.
+Proof. unfold Qlt, inject_Z. cbn. lia. Qed.
+
+Lemma near_end_on_grid dmin dmax s : (0 < s)%Z ->
+  forall k, inject_Z k == (dmax - dmin) * inject_Z s ->
+  forall i, (0 <= i <= k)%Z ->
+  (near_end dmin dmax s (dmin + inject_Z i / inject_Z s) <-> (i = 0 \/ i = k)%Z).
+Proof.
+  intros Hs k Hk i Hi. pose proof (inject_Z_pos s Hs) as Ps. unfold near_end.
+  assert (A : (dmin + inject_Z i / inject_Z s - dmin) * inject_Z s == inject_Z i) by (field; lra).
+  assert (B : (dmax - (dmin + inject_Z i / inject_Z s)) * inject_Z s == inject_Z (k - i)).
+  { unfold Z.sub. rewrite inject_Z_plus, inject_Z_opp, Hk. field. lra. }
+  rewrite A, B, !inject_Z_lt1. lia.
+Qed.
+
+(* ================================================================ regression witnesses
+   The three defects this property exposed, on the models of the code AS FOUND
+   ([loop_pixel_before], [quadratic_before]) and on the model of the repaired code. *)
+
+Definition K0 : consts := mkK 963 8.
+Definition opt (l : list Z) : list (option Q) := map (fun z => Some (inject_Z z)) l.
+
+(* D3 (fix cdccf68): a pixel on dmin, refinement twice: 0 -> 8 -> 16 with `+=`; 0 -> 8 -> 8 with `|=` *)
+Example D3_before :
+  loop_pixel_before K0 Vfit MMin (-2) 2 1 (opt [1;2;3;4;5]%Z) (Some (-2)) 0 = POk (Some (-2)) (Some 1) 8
+  /\ loop_pixel_before K0 Vfit MMin (-2) 2 1 (opt [1;2;3;4;5]%Z) (Some (-2)) 8 = POk (Some (-2)) (Some 1) 16.
+Proof. split; vm_compute; reflexivity. Qed.
+Example D3_after :
+  loop_pixel K0 Vfit MMin (-2) 2 1 (opt [1;2;3;4;5]%Z) (Some (-2)) 0 = POk (Some (-2)) (Some 1) 8
+  /\ loop_pixel K0 Vfit MMin (-2) 2 1 (opt [1;2;3;4;5]%Z) (Some (-2)) 8 = POk (Some (-2)) (Some 1) 8.
+Proof. split; vm_compute; reflexivity. Qed.
+
+(* D4 (fix bda49f0): costs [5,2,2,2,7], disparity 0 as left by a median filter, quadratic *)
+Example D4_before :
+  loop_pixel_before K0 Quadratic MMin (-2) 2 1 (opt [5;2;2;2;7]%Z) (Some 0) 0 = PRaise.
+Proof. vm_compute; reflexivity. Qed.
+Example D4_after :
+  loop_pixel K0 Quadratic MMin (-2) 2 1 (opt [5;2;2;2;7]%Z) (Some 0) 0 = POk (Some 0) (Some 2) 0.
+Proof. vm_compute; reflexivity. Qed.
+
+(* D13 (fix cc4b5f5): off-grid disparity -7/4 within one sample of dmin = -2: index -1 reads the cost of
+   dmax (2), the triple (2,1,5) looks like a minimum and the pixel is moved to -17/8 < dmin *)
+Example D13_before_dmin :
+  loop_pixel_before K0 Vfit MMin (-2) 2 1 (opt [1;5;5;5;2]%Z) (Some (-7 # 4)) 0
+  = POk (Some (-17 # 8)) (Some (-1 # 2)) 0.
+Proof. vm_compute; reflexivity. Qed.
+Example D13_after_dmin :
+  loop_pixel K0 Vfit MMin (-2) 2 1 (opt [1;5;5;5;2]%Z) (Some (-7 # 4)) 0 = POk (Some (-7 # 4)) (Some 1) 8.
+Proof. vm_compute; reflexivity. Qed.
+(* ... and its mirror image: 7/4 is pushed above dmax = 2, and the NEXT step reads past the cost row *)
+Example D13_before_dmax :
+  loop_pixel_before K0 Vfit MMin (-2) 2 1 (opt [9;9;5;1;2]%Z) (Some (7 # 4)) 0
+  = POk (Some (17 # 8)) (Some (-1 # 2)) 0
+  /\ loop_pixel_before K0 Vfit MMin (-2) 2 1 (opt [9;9;5;1;2]%Z) (Some (17 # 8)) 0 = POut.
+Proof. split; vm_compute; reflexivity. Qed.
+Example D13_after_dmax :
+  loop_pixel K0 Vfit MMin (-2) 2 1 (opt [9;9;5;1;2]%Z) (Some (7 # 4)) 0 = POk (Some (7 # 4)) (Some 1) 8.
+Proof. vm_compute; reflexivity. Qed.
